@@ -163,7 +163,8 @@ def run_case(case):
     else:
         t = tuple(case['t'])
         in_types = {'a': t}
-        exprs = [e for e in c02.unary_exprs(t) if not (e[0] == 'un' and e[1] in ('not',))]
+        # (select_with is a library function, not an operator/method of the primitive types: C02 covers it)
+        exprs = [e for e in c02.unary_exprs(t) if not (e[0] == 'un' and e[1] in ('not',)) and e[0] != 'selw']
     vals, exhaustive = ed.valuations(in_types, rnd, exhaustive_bits=10, samples=200)
     # ---- D: direct results; keep expressions that succeed on at least one valuation with one stable type
     table = []
